@@ -80,6 +80,21 @@ def _assign(stmt, target=None):
     return None
 
 
+def _rows_added(stmt, target, arr):
+    """`<target> += list(<arr>)` or `+= list(np.array(<arr>, ...))` / `[... for row in <arr>]`-free copies of the rows"""
+    if not (isinstance(stmt, ast.AugAssign) and isinstance(stmt.op, ast.Add) and ast.unparse(stmt.target) == target):
+        return False
+    v = stmt.value
+    if not (isinstance(v, ast.Call) and T.dotted(v.func) == "list" and len(v.args) == 1 and not v.keywords):
+        return False
+    x = v.args[0]
+    if ast.unparse(x) == arr:
+        return True
+    return (isinstance(x, ast.Call) and T.dotted(x.func) in ("np.array", "np.asarray", "np.copy") and x.args
+            and ast.unparse(x.args[0]) == arr and len(x.args) == 1
+            and all(k.arg in ("dtype", "copy") for k in x.keywords))
+
+
 def _table(rel, unpack, assign, cvar):
     """`v0,v1,.. = C` ; `faces_C = [ (..), .. ]`  ->  (names, [[names]])"""
     v = _assign(unpack)
@@ -554,7 +569,7 @@ def gen():
     b = T.body_nodoc(f)
     txt = [ast.unparse(s) for s in b]
     if not (len(b) == 9 and txt[0] == "m = RawMeshData()" and isinstance(b[1], ast.If) and txt[2] == "n_vert = V.shape[0]"
-            and txt[3] == "m.vertices += list(V)" and txt[7] == "if raw:\n    return m"
+            and _rows_added(b[3], "m.vertices", "V") and txt[7] == "if raw:\n    return m"
             and txt[8] == "return _instanciate_raw_mesh_data(m)"):
         T.fail(MM, f, "from_arrays: unexpected structure")
     tw = Tr(MM, {"V.shape[1]": "w"})
@@ -574,7 +589,7 @@ def gen():
     bad = []
     for s, arr, cont in ((b[4], "E", "edges"), (b[5], "F", "faces"), (b[6], "C", "cells")):
         if not (isinstance(s, ast.If) and ast.unparse(s.test) == "%s is not None" % arr and not s.orelse and len(s.body) >= 2
-                and ast.unparse(s.body[-1]) == "m.%s += list(%s)" % (cont, arr)):
+                and _rows_added(s.body[-1], "m.%s" % cont, arr)):
             T.fail(MM, s, "from_arrays: block for %s has an unexpected shape" % arr)
         chk = s.body[0]
         if not (isinstance(chk, ast.If) and isinstance(chk.body[0], ast.Raise) and _is_call(chk.test, "np.any", 1)
